@@ -119,19 +119,23 @@ package proxy
 //@   ensures s.net == old(s.net) + value
 //@   assigns s.net
 
-//@ extern quiet metadata.FromIncomingContext
+//@ extern metadata.FromIncomingContext(ctx)
+//@   trusted google.golang.org/grpc/metadata: ok implies a non-nil map
+//@   ensures result1 ==> result0 != nil
+//@   assigns nothing
 //@ extern quiet history.DecodeClusterShardMD
 //@ extern quiet headers.NewGRPCHeaderGetter
 //@ extern quiet serviceerror.NewInvalidArgument
 //@ extern quiet log.CapturePanic
 //@ extern quiet ClusterShardIDtoString
-//@ extern quiet handleStream
-//@   trusted handleStream has no access to the observer counters (they are reachable only through s.reportStreamValue)
 
 // Bookkeeping is balanced on every exit path (+1 is followed by a deferred -1; early error returns happen
 // before any bookkeeping) and panic capture is installed first.
+//@ pred (s *adminServiceProxyServer) lcmOK() = s.shardCountConfig.Mode == config.ShardCountLCM ==>
+//@     1 <= s.lcmParameters.TargetShardCount && s.lcmParameters.TargetShardCount <= s.lcmParameters.LCM && s.lcmParameters.LCM % s.lcmParameters.TargetShardCount == 0
 //@ contract (*adminServiceProxyServer).StreamWorkflowReplicationMessages
-//@   props C20
+//@   props C20 C07
+//@   requires s.lcmOK()
 //@   firstdefer log.CapturePanic
 //@   ensures @balanced: s.net == old(s.net)
 
@@ -159,6 +163,7 @@ package proxy
 // as the initiator's (client) shard, the remapped real shard as the server shard, and keeps both cluster ids.
 //@ contract handleStream
 //@   props C07 C20
+//@   assigns contents(targetMetadata)
 //@   requires targetMetadata != nil
 //@   requires shardCountConfig.Mode == config.ShardCountLCM ==>
 //@            1 <= lcmParameters.TargetShardCount && lcmParameters.TargetShardCount <= lcmParameters.LCM && lcmParameters.LCM % lcmParameters.TargetShardCount == 0
